@@ -4,7 +4,7 @@
    C09 as a whole ("for every room in the envelope the pipeline returns the truth within 1 mm / 1 mrad, unlinked
    systems raise") depends on IPPE (SVD), the mirror vote, an eigen-decomposition and scipy.least_squares; none of
    these has a Gallina model here.  Shape of the full statement, over an arbitrary pipeline function: *)
-From CF Require Import Common.Bytes C09.Model C09.Proofs_matcher C09.Proofs_link C09.Proofs_est C09.Gen_Matcher C09.GenTie C09.Vote C09.Proofs_vote.
+From CF Require Import Common.Bytes C09.Model C09.Proofs_matcher C09.Proofs_link C09.Proofs_est C09.Gen_Matcher C09.GenTie C09.Vote C09.Proofs_vote C09.Pure C09.Proofs_pure.
 Open Scope Z_scope.
 
 Definition C09_full {Room Answer : Type} (in_envelope linked : Room -> Prop) (pipeline : Room -> option Answer)
@@ -143,3 +143,34 @@ Theorem C09_mirror_vote_refuted :
     zsum (vote near_cm position_lists) <> Z.of_nat (length (vote near_cm position_lists)) * truth.
 Proof. exact mirror_vote_refuted. Qed.
 Print Assumptions C09_mirror_vote_refuted.
+
+(* ---- EXTENSION beyond C09's stated quantifier (inputs, configurations -- not schedules): the result of a call is a
+        function of its arguments also when two calls overlap in time.  The estimator as its two passes over the samples
+        (find = _find_solutions: IPPE + vote; pick = _angles_to_poses and everything after), intermediate kept inside
+        the call as in /repo: for EVERY interleaving of the steps of two calls, every initial content of any state
+        shared between calls, both calls return what they return alone, and the shared state is untouched. *)
+Theorem C09_overlapping_estimates_independent :
+  forall (I M R S : Type) (find : I -> M) (pick : I -> M -> R) (sched : list bool) (i1 i2 : I) (s : S),
+    let '(l1, l2, s') := run_both sched (pure_estimate find pick) (pure_estimate find pick) (start i1) (start i2) s in
+    result l1 = Some (pick i1 (find i1)) /\ result l2 = Some (pick i2 (find i2)) /\ s' = s.
+Proof. intros I M R S find pick. exact (@overlapping_estimates_independent I M R find pick S). Qed.
+Print Assumptions C09_overlapping_estimates_independent.
+
+(* the general form: any two programs whose steps neither read nor write the shared state *)
+Theorem C09_local_steps_commute :
+  forall (L S : Type) (sched : list bool) (p1 p2 : list (@step L S)) l1 l2 s s1 s2,
+    Forall local_only p1 -> Forall local_only p2 ->
+    run_both sched p1 p2 l1 l2 s = (fst (run_alone p1 l1 s1), fst (run_alone p2 l2 s2), s).
+Proof. exact (@both_local). Qed.
+Print Assumptions C09_local_steps_commute.
+
+(* refuted for a scratch cell shared by all calls, written by pass 1 and read by pass 2 (a class attribute): alone the
+   call is right, but under the schedule [call 1: pass 1; call 2: pass 1; call 1: pass 2] call 1 answers from the data
+   of call 2 *)
+Theorem C09_shared_scratch_refuted :
+  exists (find : nat -> nat) (pick : nat -> nat -> nat) (i1 i2 : nat) (sched : list bool),
+    let '(l1, _, _) := run_both sched (cell_estimate find pick) (cell_estimate find pick) (start i1) (start i2) None in
+    result l1 <> Some (pick i1 (find i1)) /\
+    result (fst (run_alone (cell_estimate find pick) (start i1) None)) = Some (pick i1 (find i1)).
+Proof. exact shared_scratch_refuted. Qed.
+Print Assumptions C09_shared_scratch_refuted.
